@@ -178,6 +178,7 @@ static void checkAllOnce(const char* when) {
       sim_fail(cls.c_str(), "%s: task %d (%s) starts=%d finishes=%d of %d tasks", when, i, apiName(t.api), t.starts,
                t.finishes, tagCount());
     }
+    tagObserve(i);
   }
 }
 
